@@ -131,7 +131,8 @@ def families():
                 yield "par", ["<=", [S((sg, par(c, S(("+", ab(None, e)), ("-", var(None, "z")))))), S(("+", num(4)))]]
                 yield "par", ["<=", [S((sg, par(c, S(("+", var(None, "z")), ("+", ab(2, e)))))), S(("+", num(4)))]]
     # chain: three sides
-    mids = [S(("+", var(None, "x"))), S(("+", var(2, "x")), ("-", var(None, "y"))), S(("+", num(2)))]
+    mids = [S(("+", var(None, "x"))), S(("+", var(2, "x")), ("-", var(None, "y"))), S(("+", num(2))),
+            S(("+", ab(None, inner[0]))), S(("+", ab(2, inner[2])), ("+", num(1))), S(("-", ab(None, inner[0])), ("+", var(None, "y")))]
     los = [S(("+", num(0))), S(("+", var(None, "z"))), S(("+", ab(None, inner[0]))), S(("+", ab(2, inner[2])), ("+", num(1)))]
     his = [S(("+", num(5))), S(("+", var(None, "t"))), S(("+", ab(None, inner[1])))]
     for lo in los:
